@@ -127,7 +127,7 @@ func main() {
 						}
 						bad++
 					}
-					fmt.Printf("    %-70s %s (%d sub-checks)\n", n, st, ob.Subs)
+					fmt.Printf("    %-70s %s (%d sub-checks) %v\n", n, st, ob.Subs, ob.BySolver)
 					for fi, f := range ob.Fails {
 						if fi >= 2 && !*verbose {
 							fmt.Printf("        ... %d more\n", len(ob.Fails)-fi)
